@@ -34,6 +34,80 @@ fn main() {
     if args.len() >= 2 && args[1] == "--selftest" {
         std::process::exit(avra_proofs::selftest::run());
     }
+    if args.len() >= 5 && args[1] == "--search" {
+        // witness search (fallback when Kani prints no concrete vector for a failed harness):
+        // the solver has already decided that a violating input exists; this only looks for one
+        // to replay.  Biased pseudo-random vectors, in-process.
+        let name = args[2].clone();
+        let count: u64 = args[3].parse().unwrap_or(1000);
+        let mut x: u64 = args[4].parse::<u64>().unwrap_or(1).wrapping_mul(0x9E3779B97F4A7C15) | 1;
+        let mut next = move || {
+            x ^= x << 13;
+            x ^= x >> 7;
+            x ^= x << 17;
+            x
+        };
+        std::panic::set_hook(Box::new(|_| {}));
+        for _ in 0..count {
+            let mut vals: Vec<Vec<u8>> = vec![];
+            for _ in 0..16 {
+                let r = next();
+                let mut v = vec![0u8; 64];
+                match r % 10 {
+                    0..=5 => v[0] = ((r >> 8) % 32) as u8,
+                    6 => {
+                        let neg = (-(((r >> 8) % 5) as i64 + 1)) as u64;
+                        v[..8].copy_from_slice(&neg.to_le_bytes());
+                    }
+                    7 => {
+                        let edge = [i64::MIN, i64::MAX, i64::MIN + 1, 255, 256, 65535, 65536, 0x3f_ffff][((r >> 8) % 8) as usize];
+                        v[..8].copy_from_slice(&edge.to_le_bytes());
+                    }
+                    _ => {
+                        for b in v.iter_mut() {
+                            *b = (next() >> 24) as u8;
+                        }
+                    }
+                }
+                vals.push(v);
+            }
+            let trial = vals.clone();
+            let nm = name.clone();
+            avra_proofs::src::ASSUME_FAILED.store(false, std::sync::atomic::Ordering::SeqCst);
+            let result = std::panic::catch_unwind(move || {
+                let mut src = ReplaySrc::new(trial);
+                src.quiet = true;
+                let known = avra_proofs::run_native(&nm, &mut src);
+                (known, src.failed.len(), src.assume_failed, src.pos)
+            });
+            let (hit, used) = match result {
+                Err(_) => (!avra_proofs::src::ASSUME_FAILED.load(std::sync::atomic::Ordering::SeqCst), 16),
+                Ok((false, _, _, _)) => {
+                    println!("RESULT: UNKNOWN-HARNESS");
+                    std::process::exit(2);
+                }
+                Ok((true, n, assume_failed, used)) => (n > 0 && !assume_failed, used),
+            };
+            if hit {
+                let used = used.min(16).max(1);
+                let hex: Vec<String> = vals[..used]
+                    .iter()
+                    .map(|v| {
+                        // trailing zero bytes are implied
+                        let mut end = v.len();
+                        while end > 8 && v[end - 1] == 0 {
+                            end -= 1;
+                        }
+                        v[..end].iter().map(|b| format!("{:02x}", b)).collect::<String>()
+                    })
+                    .collect();
+                println!("FOUND: {}", hex.join(" "));
+                std::process::exit(10);
+            }
+        }
+        println!("RESULT: NOTHING-FOUND");
+        std::process::exit(0);
+    }
     if args.len() < 2 {
         eprintln!("usage: replay <harness> <hex>...");
         std::process::exit(2);
@@ -48,6 +122,10 @@ fn main() {
     });
     match result {
         Err(_) => {
+            if avra_proofs::src::ASSUME_FAILED.load(std::sync::atomic::Ordering::SeqCst) {
+                println!("RESULT: ASSUMPTION-FAILED (then panicked)");
+                std::process::exit(12);
+            }
             println!("RESULT: PANIC");
             std::process::exit(11);
         }
